@@ -1,2 +1,6 @@
 """Importing this package registers every rule with pv.core.RULES."""
 from . import lexical  # noqa: F401
+from . import parser   # noqa: F401
+from . import cli      # noqa: F401
+from . import graphq   # noqa: F401
+from . import modelr   # noqa: F401
